@@ -222,11 +222,23 @@ impl<W: 'static, R: 'static, T: 'static> XGenerator<W, R, T> {
             }),
             Self::Repeat(gen) => either_i({
                 let gen = to_native!(gen, Self);
-                iter::repeat_with(move || {
-                    let inner: BIter<_, _, _> = Box::new(gen._iter(ns, rt.clone()));
-                    inner
+                let mut current: Option<BIter<_, _, _>> = None;
+                // a pass that yields nothing ends the stream: repeating an empty generator is the empty generator, not a
+                // loop that never answers
+                let mut yielded_in_pass = true;
+                iter::from_fn(move || loop {
+                    if let Some(it) = &mut current {
+                        if let Some(x) = it.next() {
+                            yielded_in_pass = true;
+                            return Some(x);
+                        }
+                    }
+                    if !yielded_in_pass {
+                        return None;
+                    }
+                    yielded_in_pass = false;
+                    current = Some(Box::new(gen._iter(ns, rt.clone())));
                 })
-                .flatten()
             }),
             Self::TakeWhile(gen, func) => either_j({
                 let inner: BIter<_, _, _> = Box::new(to_native!(gen, Self)._iter(ns, rt.clone()));
